@@ -83,36 +83,37 @@ def trimRight (keep : Nat) : Nat → Bytes → Bytes
       | some _ => bs
       | none => trimRight keep fuel (bs.take (bs.length - (lastPiece.length + (if hasSep then 1 else 0))))
 
+/-- skip pieces until one is a component and consume it (`Components::next` in the body state) -/
+def eatComp : Nat → Bytes → Bytes
+  | 0, x => x
+  | f+1, x =>
+    if x = [] then [] else
+    let (p, r, _) := takePiece x
+    match compOfPiece p with
+    | some _ => r
+    | none => eatComp f r
+
+/-- `next()` × `n` once the iterator is in the body state -/
+def dropBody : Nat → Bytes → Bytes
+  | 0, bs => bs
+  | n+1, bs => if bs = [] then [] else dropBody n (eatComp (bs.length + 1) bs)
+
 /-- consume `n` components from the front: `for _ in 0..n { components.next(); }`, returning the
-remaining raw bytes and whether the iterator is already in the body (`front == State::Body`) -/
-def dropComps : Nat → Bytes → Bool → Bytes × Bool
-  | 0, bs, inBody => (bs, inBody)
-  | n+1, bs, inBody =>
-    if !inBody then
-      match bs with
-      | [] => ([], true)
-      | b :: rest =>
-        if b = SEP then dropComps n rest true
-        else if includeCurDir bs then dropComps n rest true
-        else dropComps (n+1) bs true
-    else
-      if bs = [] then ([], true) else
-      -- skip pieces until one is a component, consume it
-      let rec eat : Nat → Bytes → Bytes
-        | 0, x => x
-        | f+1, x =>
-          if x = [] then [] else
-          let (p, r, _) := takePiece x
-          match compOfPiece p with
-          | some _ => r
-          | none => eat f r
-      dropComps n (eat (bs.length + 1) bs) true
-termination_by n _ inBody => 2 * n + (if inBody then 0 else 1)
-decreasing_by all_goals simp_all <;> omega
+remaining raw bytes and whether the iterator has left its start state (`front == State::Body`) -/
+def dropComps (n : Nat) (bs : Bytes) : Bytes × Bool :=
+  match n with
+  | 0 => (bs, false)
+  | n+1 =>
+    match bs with
+    | [] => ([], true)
+    | b :: rest =>
+      if b = SEP then (dropBody n rest, true)
+      else if includeCurDir bs then (dropBody n rest, true)
+      else (dropBody (n+1) bs, true)
 
 /-- `strip_path`: `components.next()` × `n`, then `components.as_path()` -/
 def stripPath (n : Nat) (raw : Bytes) : Bytes :=
-  let (rest, inBody) := dropComps n raw false
+  let (rest, inBody) := dropComps n raw
   let rest := if inBody then trimLeft (rest.length + 1) rest else rest
   let keep := if inBody then 0 else
     match rest with
